@@ -922,7 +922,7 @@ func ruleNForward(c *engine.Context) *report.Rule {
 						ok2 = false
 						why = append(why, "evaluation does not start with root = current = the source argument")
 					}
-				} else if root == nil || aRoot != ssa.Value(root) {
+				} else if aRoot != nil && (root == nil || aRoot != ssa.Value(root)) {
 					ok2 = false
 					why = append(why, "the root argument is not the caller's own root")
 				}
